@@ -14,6 +14,7 @@ pub struct Collected {
     pub inst: std::rc::Rc<Result<Instance, String>>,
     pub cond: String,
     pub shape: String,
+    pub wcb_nonempty: bool,
 }
 
 /// every distinct schematic instance of every role: 2-element rendering, zero-element shapes, unit / single-field structs, impl items
@@ -21,9 +22,9 @@ pub fn collect(cx: &Cx, rep: &mut Report) -> Vec<Collected> {
     let mut out: Vec<Collected> = Vec::new();
     let mut seen: BTreeSet<String> = BTreeSet::new();
     let mut cache = InstCache::default();
-    let mut add = |out: &mut Vec<Collected>, label: &str, site: &str, inst: std::rc::Rc<Result<Instance, String>>, cond: String, shape: &str| {
+    let mut add = |out: &mut Vec<Collected>, label: &str, site: &str, inst: std::rc::Rc<Result<Instance, String>>, cond: String, shape: &str, wcb_nonempty: bool| {
         let key = match &*inst { Ok(i) => i.text.clone(), Err(e) => e.clone() };
-        if seen.insert(key) { out.push(Collected { label: label.to_string(), site: site.to_string(), inst, cond, shape: shape.to_string() }); }
+        if seen.insert(key) { out.push(Collected { label: label.to_string(), site: site.to_string(), inst, cond, shape: shape.to_string(), wcb_nonempty }); }
     };
     for r in &cx.roles {
         if r.variant == "_" { continue; }
@@ -43,7 +44,8 @@ pub fn collect(cx: &Cx, rep: &mut Report) -> Vec<Collected> {
                     let em = empties(&path.cond);
                     let inst = cache.get_with(v, n, &em);
                     let sh = if em.iter().any(|e| !e.contains("WhereClauseBuilder")) { format!("{shape}, empty {}", em.iter().filter(|e| !e.contains("WhereClauseBuilder")).cloned().collect::<Vec<_>>().join("+")) } else { shape.to_string() };
-                    add(&mut out, &run.label(), &run.site(), inst, cond_str(&path.cond), &sh);
+                    let wne = path.cond.iter().any(|(a, b)| !*b && a.starts_with("all-empty(") && a.contains("WhereClauseBuilder"));
+                    add(&mut out, &run.label(), &run.site(), inst, cond_str(&path.cond), &sh, wne);
                 }
             }
         }
@@ -78,6 +80,10 @@ struct Scan {
     free_fns: Vec<(String, String)>,
     fn_depth: usize,
     in_method: bool,
+    /// method-syntax calls: (method, root of the receiver chain)
+    method_calls: Vec<(String, String)>,
+    /// names of parameters whose declared type is core's Formatter
+    formatter_params: BTreeSet<String>,
 }
 impl Scan {
     fn bind(&mut self, kind: &str, name: String) { self.bound_names.insert(name.clone()); self.binders.push((kind.to_string(), name)); }
@@ -118,7 +124,7 @@ impl<'ast> Visit<'ast> for Scan {
         syn::visit::visit_bound_lifetimes(self, b);
     }
     fn visit_impl_item_fn(&mut self, f: &'ast syn::ImplItemFn) {
-        for a in &f.sig.inputs { if let syn::FnArg::Typed(t) = a { self.pat_binders(&t.pat, "method parameter"); } }
+        for a in &f.sig.inputs { if let syn::FnArg::Typed(t) = a { self.pat_binders(&t.pat, "method parameter"); if quote::ToTokens::to_token_stream(&t.ty).to_string().replace(' ', "").ends_with("::core::fmt::Formatter") { if let syn::Pat::Ident(pi) = &*t.pat { self.formatter_params.insert(pi.ident.to_string()); } } } }
         let was = self.in_method;
         self.in_method = true;
         syn::visit::visit_impl_item_fn(self, f);
@@ -156,7 +162,12 @@ impl<'ast> Visit<'ast> for Scan {
         self.macros.push(crate::sem::canon_path(&m.path));
     }
     fn visit_expr_field(&mut self, f: &'ast syn::ExprField) { self.visit_expr(&f.base); }
-    fn visit_expr_method_call(&mut self, m: &'ast syn::ExprMethodCall) { self.visit_expr(&m.receiver); for a in &m.args { self.visit_expr(a); } }
+    fn visit_expr_method_call(&mut self, m: &'ast syn::ExprMethodCall) {
+        let mut root: &syn::Expr = &m.receiver;
+        loop { match root { syn::Expr::MethodCall(x) => root = &x.receiver, syn::Expr::Paren(x) => root = &x.expr, syn::Expr::Reference(x) => root = &x.expr, syn::Expr::Field(x) => root = &x.base, _ => break } }
+        self.method_calls.push((m.method.to_string(), quote::ToTokens::to_token_stream(root).to_string().replace(' ', "")));
+        self.visit_expr(&m.receiver); for a in &m.args { self.visit_expr(a); }
+    }
     fn visit_field_value(&mut self, f: &'ast syn::FieldValue) { self.visit_expr(&f.expr); }
     fn visit_field_pat(&mut self, f: &'ast syn::FieldPat) { let _ = f; }
 }
@@ -195,6 +206,12 @@ pub fn scan_instance(inst: &Instance) -> Vec<HygFinding> {
         }
         if first == "Self" || first == "self" || is_leaf_name(first) || sc.bound_names.contains(first) || prims.contains(&first.as_str()) { continue; }
         if seen3.insert(text.clone()) { out.push(HygFinding { rule: "TP-abs-paths", inst: text.clone(), msg: format!("the expansion names `{text}` through the use-site scope; a local item of that name changes its meaning (must be an absolute `::core::` path)") }); }
+    }
+    // ---- TP-method-syntax: a method-syntax call on anything but core's Formatter resolves through the user's inherent methods and in-scope traits
+    let mut seen5 = BTreeSet::new();
+    for (m, root) in &sc.method_calls {
+        if sc.formatter_params.contains(root) { continue; }
+        if seen5.insert(m.clone()) { out.push(HygFinding { rule: "TP-method-syntax", inst: m.clone(), msg: format!("the expansion calls `.{m}(..)` with method syntax on `{root}`: an inherent method or another in-scope trait of that name on the user's type changes what is called (use the absolute `::core::…::{m}(..)` form)") }); }
     }
     // ---- TP-zero-arm-match
     if sc.zero_arm_on_self > 0 { out.push(HygFinding { rule: "TP-zero-arm-match", inst: "match-self-no-arms".into(), msg: "`match self {}` with no arms on a reference: an enum without variants does not compile (E0004)".into() }); }
@@ -239,7 +256,7 @@ fn run_hyg(cx: &Cx, rep: &mut Report, rules: &[&str]) -> Vec<Collected> {
 
 pub fn c13(cx: &Cx) -> i32 {
     let mut rep = cx.report("C13");
-    let coll = run_hyg(cx, &mut rep, &["TP-binders", "TP-binder-user-ident", "TP-abs-paths"]);
+    let coll = run_hyg(cx, &mut rep, &["TP-binders", "TP-binder-user-ident", "TP-abs-paths", "TP-method-syntax"]);
     // positive fixtures: the rules must fire on a violating instance (zero-count rules never pass vacuously)
     let fx: syn::File = syn::parse_str("impl<T> Eq for X<T> { fn f<H>(&self, other: &Self) { let o = Some(1); let _: for<'a> fn(&'a u8); } }").unwrap_or(syn::File { shebang: None, attrs: vec![], items: vec![] });
     let finst = Instance { file: fx, leaves: Default::default(), text: String::new(), notes: vec![] };
@@ -343,6 +360,8 @@ pub fn c12(cx: &Cx) -> i32 {
             let body = sem.method(m);
             let mut bad_unsized = None;
             let mut bad_name = None;
+            // any name printed as the identifier's own text without removing `r#`
+            body.walk(&mut |t| { if let crate::sem::Tm::Lit(l) = t { if l.trim_matches('"').starts_with("raw:") { bad_name = Some(format!("the identifier's text {l}")); } } });
             body.walk(&mut |t| {
                 if let crate::sem::Tm::Method(_, name, args) = t {
                     if name == "field" {
@@ -357,9 +376,57 @@ pub fn c12(cx: &Cx) -> i32 {
                 }
             });
             rep.check(bad_unsized.is_none(), "TP-unsized-field", &c.label, "field-arg", &format!("a field is handed to the formatter as `{}`: coercing it to `&dyn Debug` needs the field type to be Sized, so an unsized last field does not compile (the standard derive passes `&&field`)", bad_unsized.clone().unwrap_or_default()), &c.site, json!({"shape": c.shape}));
-            rep.check(bad_name.is_none(), "TP-names", &c.label, "stringify", &format!("a name is printed through `{}`: raw identifiers keep their `r#` prefix, unlike the standard derive", bad_name.clone().unwrap_or_default()), &c.site, json!({"shape": c.shape}));
+            rep.check(bad_name.is_none(), "TP-names", &c.label, "stringify", &format!("a name is printed through {}: raw identifiers keep their `r#` prefix, unlike the standard derive", bad_name.clone().unwrap_or_default()), &c.site, json!({"shape": c.shape}));
         }
     }
     rep.assumptions = vec!["behavioural identity with the standard derives on values follows from the specialisation of the C01/C06/C07/C10/C11 rules at the zero-attribute state; it is not evaluated".into(), "the description of what the standard derives generate (field-wise, declaration order, `&&field` to the formatter, names without r#) is trusted".into()];
     rep.finish("other", "static analysis: at the all-absent attribute state the five comparison models select the default comparator for every field (no ignore, reverse or error); every role is printed for 0, 1 and 2 elements (unit / empty / single-field structs, enums without variants) and each instance must parse, must not match a reference with zero arms, must hand fields to the formatter as a reference to a reference and must print names without stringify!", "rule instances = (rule, role, shape, distinct instance)")
+}
+
+
+/// TP-where-retained / TP-where-trait (C03): every generated impl carries the where-clause that the
+/// builder collected, its generics come from the item's generics, and each bounded field type is bounded by the derived trait
+pub fn where_rules(cx: &Cx, rep: &mut Report) {
+    let coll = collect(cx, rep);
+    let mut n = 0;
+    for c in &coll {
+        let Ok(inst) = &*c.inst else { continue };
+        for im in find_impls(&inst.file) {
+            n += 1;
+            let tp = trait_path(im);
+            let gtxt = quote::ToTokens::to_token_stream(&im.generics.params).to_string();
+            let g_ok = gtxt.contains("__G_item_generics") || gtxt.contains("__G_x_item_generics") || gtxt.contains("__G_source_generics");
+            rep.check(g_ok, "TP-where-retained", &c.label, "impl-generics", &format!("a generated impl does not take its generic parameters from the item's generics: `{gtxt}`"), &c.site, json!({"shape": c.shape}));
+            let wc = im.generics.where_clause.as_ref();
+            if c.wcb_nonempty {
+                let ok = wc.map(|w| { let t = quote::ToTokens::to_token_stream(w).to_string(); t.contains("WhereClauseBuilder") }).unwrap_or(false);
+                rep.check(ok, "TP-where-retained", &c.label, "where-dropped", &format!("the impl of {tp} does not carry the where-clause the builder collected (declared predicates and pushed bounds are lost)"), &c.site, json!({"shape": c.shape}));
+            }
+            if let Some(w) = wc {
+                for pred in &w.predicates {
+                    if let syn::WherePredicate::Type(pt) = pred {
+                        let bt = quote::ToTokens::to_token_stream(&pt.bounded_ty).to_string();
+                        if !(bt.contains("WhereClauseBuilder") && bt.contains("types")) { continue; }
+                        let bounds = pt.bounds.iter().map(|b| quote::ToTokens::to_token_stream(b).to_string().replace(' ', "")).collect::<Vec<_>>().join("+");
+                        let want = tp.split('<').next().unwrap_or(&tp).to_string();
+                        rep.check(bounds.starts_with(&want), "TP-where-trait", &c.label, "bound-trait", &format!("a field type is bounded by `{bounds}` in an impl of `{tp}`: the body needs the derived trait itself"), &c.site, json!({"shape": c.shape}));
+                    }
+                }
+            }
+        }
+        // the Eq checker function re-uses the where-clause too
+        for it in &inst.file.items {
+            if let syn::Item::Const(k) = it {
+                if let syn::Expr::Block(b) = &*k.expr {
+                    for st in &b.block.stmts { if let syn::Stmt::Item(syn::Item::Fn(f)) = st {
+                        if c.wcb_nonempty {
+                            let ok = f.sig.generics.where_clause.as_ref().map(|w| quote::ToTokens::to_token_stream(w).to_string().contains("WhereClauseBuilder")).unwrap_or(false);
+                            rep.check(ok, "TP-where-retained", &c.label, "checker-where-dropped", "the Eq checker function does not carry the impl's where-clause: its assertions are checked under weaker assumptions than the impl", &c.site, json!({}));
+                        }
+                    } }
+                }
+            }
+        }
+    }
+    rep.floor("generated impls examined for their where-clause", n, 150);
 }
